@@ -78,7 +78,7 @@ CosR4Set(o, n, m) == IF o <= 4 /\ n * m <= 16 THEN CosR4SetSmall(o, n, m) ELSE C
 
 Score4Set(meas, x, y) ==
   IF meas = "COSINE" THEN CosR4Set(Ov(x, y), Cardinality(x), Cardinality(y))
-  ELSE LET s == SimND(meas, x, y) IN R4Set(s[1], s[2])
+  ELSE LET s == SimND(meas, x, y) IN R4SetDiv(s[1], s[2])
 
 (* every admissible rounded score satisfies the comparison *)
 RoundedSatAll(meas, op, t, x, y) ==
